@@ -500,8 +500,10 @@ Permuted(long) ==
 SortAlts(long) == [i \in DOMAIN Permuted(long) |-> Alt("perm." \o ToString(i), "C15.sorted_bytes", <<>>, 0, Permuted(long)[i])]
 
 \* sort off: schema and behaviour of every permuted variant equal the base's (paired line by line)
+\* (the thorough tier adds field orders to the sorted renderings above only: replaying every behaviour through fifteen more
+\* variants put 70 000 trace lines into one group, which one validator cannot cut and did not finish in half an hour)
 UnsortedShapes(long) ==
-  LET ps == Permuted(long)
+  LET ps == Permuted(FALSE)
       mk(id, msgs, role, root) ==
         [Shape("c15.u." \o id \o "." \o root, Desc(msgs), SortCfg(FALSE)) EXCEPT !.root = root, !.run = "c15.u." \o id, !.group = "c15.u",
            !.gchecks = <<GCheck("schema", "C15", "C15.unsorted_schema")>>,
